@@ -114,7 +114,8 @@ func main() {
 			}
 			// The Go runtime catches SIGSEGV & co; replace the process image by a shell (signal dispositions go
 			// back to default, same pid, same descriptors) that kills itself: a genuine death by signal.
-			err = syscall.Exec("/bin/sh", []string{"sh", "-c", "kill -" + strconv.Itoa(sig) + " $$; sleep 100"}, os.Environ())
+			// (Should the signal have been inherited as ignored, the child exits with status 97: still "not status 0".)
+			err = syscall.Exec("/bin/sh", []string{"sh", "-c", "kill -" + strconv.Itoa(sig) + " $$; exit 97"}, os.Environ())
 			fail("exec: %v", err)
 		default:
 			fail("unknown op %q", op.Kind)
